@@ -46,6 +46,7 @@ type WorkerResult struct {
 	Capped      bool             `json:"capped"`
 	ToolError   string           `json:"tool_error,omitempty"`
 	Bounds      map[string]any   `json:"bounds,omitempty"`
+	NoStop      []Violation      `json:"nostop,omitempty"` // debugging aid (VERIF_NOSTOP): all violations, never stops
 }
 
 func (w *WorkerResult) count(name string, n int64) {
@@ -61,7 +62,13 @@ func (w *WorkerResult) sample(s any) {
 	}
 }
 
+var noStop = os.Getenv("VERIF_NOSTOP") != ""
+
 func (w *WorkerResult) violate(v Violation) {
+	if noStop {
+		w.NoStop = append(w.NoStop, v)
+		return
+	}
 	if len(w.Violations) < 20 {
 		w.Violations = append(w.Violations, v)
 	}
@@ -266,6 +273,7 @@ func parent(ck *Check, tier string, seed int64, secs int, nw int) int {
 			total.sample(s)
 		}
 		total.Violations = append(total.Violations, r.Violations...)
+		total.NoStop = append(total.NoStop, r.NoStop...)
 		total.Capped = total.Capped || r.Capped
 		if r.ToolError != "" {
 			toolErr += fmt.Sprintf("worker %d: %s\n", w, r.ToolError)
@@ -275,7 +283,7 @@ func parent(ck *Check, tier string, seed int64, secs int, nw int) int {
 		}
 	}
 	for _, g := range ck.GateCounts {
-		if total.Counters[g] == 0 && toolErr == "" && !total.Capped {
+		if total.Counters[g] == 0 && toolErr == "" && !total.Capped && len(total.Violations) == 0 {
 			toolErr += fmt.Sprintf("vacuity gate: counter %q is zero\n", g)
 		}
 	}
@@ -294,6 +302,15 @@ func parent(ck *Check, tier string, seed int64, secs int, nw int) int {
 			continue
 		}
 		real = append(real, v)
+	}
+	if noStop {
+		sort.SliceStable(total.NoStop, func(i, j int) bool { return total.NoStop[i].Weight < total.NoStop[j].Weight })
+		fmt.Printf("NOSTOP: %d violations\n", len(total.NoStop))
+		for i, v := range total.NoStop {
+			if i < 80 {
+				fmt.Println("  ", v.Msg)
+			}
+		}
 	}
 	wall := time.Since(start).Seconds()
 	writeEvidence(ck, tier, seed, total, len(real), wall, toolErr)
